@@ -30,7 +30,7 @@ package innerring
 
 //@ callrule alphabet_authority in github.com/nspcc-dev/neofs-node/pkg/innerring*::*, !github.com/nspcc-dev/neofs-node/pkg/innerring::(*Server).voteForFSChainValidator
 //@   property C35
-//@   callee *).Invoke, *).NotaryInvoke, *).NotarySignAndInvokeTX, *).TransferGas, *).UpdateNeoFSAlphabetList, *).UpdateNotaryList, *).AlphabetUpdate, *).Cheque, *).Mint, *).Burn, (*balance.Client).Lock, *).NewEpoch, *).SetConfig
+//@   callee *).Invoke, *).NotaryInvoke, *).NotarySignAndInvokeTX, *).TransferGas, *).UpdateNeoFSAlphabetList, *).UpdateNotaryList, *).AlphabetUpdate, *).Cheque, *).Mint, *).Burn, (*balance.Client).Lock, *).NewEpoch, *).SetConfig, *).UpdateContainerPlacement, *).SettleContainerPayment, *).RunAlphabetNotaryScript
 //@   requires [alphabet_member] isAlpha()
 
 // voting: the node derives its alphabet membership from its inner ring index (the
